@@ -82,10 +82,15 @@ def c08Order (env : Env) (o : Output) : Bool :=
     !(decide (i < j)) ||
     (idxs (free.getD i 0)).all (fun a => (idxs (free.getD j 0)).all (fun b => decide (a < b)))))
 
-/-- hypothesis of the encoding clause: every clock reading lies on a day before the project start day (finding S6:
-    `end = max(encoded end, now)`) -/
+/-- the stronger hypothesis the encoding clause needed before the repair of finding S6 (`end = max(encoded end, now)`):
+    every clock reading lies on a day before the project start day; kept for the harness -/
 def clockBeforeStartDay (env : Env) (reads : Nat) : Bool :=
   (List.range (reads + 1)).all (fun k => decide (dayOf (env.clock k) < dayOf env.bound))
+
+/-- the statement's own hypothesis of the encoding clause (and the first conjunct of C06's `ClockHyp`): no clock
+    reading up to `reads` is later than the project start -/
+def clockNotAfterStart (env : Env) (reads : Nat) : Bool :=
+  (List.range (reads + 1)).all (fun k => decide (env.clock k ≤ env.bound))
 
 /-! ### C09 (backward, no user-fixed dates) -/
 
